@@ -421,3 +421,61 @@ Definition locate_birthday (ts : list Z) (bday : Z) : option Z :=
   | _ => let best := (Z.of_nat (length ts) - 1)%Z in
          locate_loop (S (length ts)) ts bday best 0%Z best
   end.
+
+(** * The production entry into recovery: handleChainNotifications on
+    chain.ClientConnected (chainntfns.go:135-160) runs birthdaySanityCheck
+    and then syncWithChain (wallet.go:393-475) with its result.
+
+    [w_bblock] is the stored, verified birthday block (its height); a wallet
+    restored from seed has none (waddrmgr.ErrBirthdayBlockNotSet), so
+    syncWithChain is entered with birthdayStamp = nil: it locates the birthday
+    block on the backend's chain (heights 0..best, timestamps [ts]), stores
+    it as synced-to (SetSyncedTo(startHeight), startHeight = its height) and
+    as verified birthday block, and runs [recovery] with it - which scans
+    from SyncedTo()+1.  A wallet that has one (any later start) hands it to
+    syncWithChain, which runs [recovery] from the stored synced-to height.
+
+    Not modelled (outside C16): recoveryWindow = 0 (no recovery; the property
+    has W >= 1), the comparison of stored block hashes with the backend's
+    after recovery (no reorganisation happens here; C15), and the final
+    rescan request, which starts at the synced-to height recovery ended at,
+    i.e. at the backend's best block. *)
+Record wstate := { w_bblock : option N; w_p : pstate }.
+Definition fresh_wstate : wstate := {| w_bblock := None; w_p := fresh_pstate |}.
+
+Section Startup.
+  Variable invalid_child : scope -> bool -> index -> bool.
+  Variable inv_bound : N.
+  Variable scopes : list scope.
+
+  (** syncWithChain with birthdayStamp = nil, after the search returned the
+      block at height [b]: SetSyncedTo(b), SetBirthdayBlock(b, verified),
+      recovery(b). *)
+  Definition first_start (w : N) (bs : nat) (b best : N) (chain : list block) (p : pstate) : pstate :=
+    recovery invalid_child inv_bound scopes w bs b best chain (set_synced b p).
+
+  Definition startup (w : N) (bs : nat) (ts : list Z) (birthday : Z) (best : N)
+      (chain : list block) (ws : wstate) : option wstate :=
+    match w_bblock ws with
+    | Some b =>
+        Some {| w_bblock := Some b;
+                w_p := recovery invalid_child inv_bound scopes w bs b best chain (w_p ws) |}
+    | None =>
+        match locate_birthday (firstn (S (N.to_nat best)) ts) birthday with
+        | None => None
+        | Some hz =>
+            let b := Z.to_N hz in
+            Some {| w_bblock := Some b; w_p := first_start w bs b best chain (w_p ws) |}
+        end
+    end.
+
+  (** The wallet started repeatedly, each time against the chain as far as
+      the height in [cuts] (a reopened wallet: the recovery state is rebuilt
+      from the database by [resurrect] inside [recovery]). *)
+  Definition startups (w : N) (bs : nat) (ts : list Z) (birthday : Z) (cuts : list N)
+      (chain : list block) (ws : wstate) : option wstate :=
+    fold_left (fun o best => match o with
+                             | Some s => startup w bs ts birthday best chain s
+                             | None => None
+                             end) cuts (Some ws).
+End Startup.
